@@ -151,7 +151,7 @@ impl Property for C15 {
         320
     }
     fn required_counters(&self) -> Vec<&'static str> {
-        vec!["walks", "read_target_with_directory_link", "reentrant_link_under_read_target", "dangling_link_under_read_target", "bounds_cut_tree", "max_below_prefix_length", "ctor_refused", "glob_walks", "path_walks", "rooted_walks", "behaviour_via_conversion"]
+        vec!["walks", "read_target_with_directory_link", "reentrant_link_under_read_target", "dangling_link_under_read_target", "bounds_cut_tree", "max_below_prefix_length", "ctor_refused", "glob_walks", "path_walks", "rooted_walks", "behaviour_via_conversion", "dotdot_prefix_walks"]
     }
     fn decode(&self, t: &mut Tape) -> Case {
         let tree = gen_tree(t, &TreeCfg { links: true, ..TreeCfg::default() });
@@ -161,7 +161,9 @@ impl Property for C15 {
         }
         else {
             let shape = match gen_shape(t, &tree, &base) {
-                Shape::Dots(_) => Shape::Plain,
+                // `..` prefixes count as levels of depth like any other component; `.` is the
+                // open finding F-WALK-DOT (C02, C14)
+                Shape::Dots(c) if c.iter().any(|x| x == ".") => Shape::Plain,
                 s => s,
             };
             let g = match t.below(4) {
@@ -247,7 +249,8 @@ impl Property for C15 {
             None => None,
             Some((shape, g)) => {
                 let expr = full_glob(shape, g, &root_abs);
-                if (*shape != Shape::Rooted && starts_rooting_expr(&strip_flags(&expr))) || has_sep_class(&expr) || crate::props::c12::has_dot_component(&expr).0 {
+                let dotted = matches!(shape, Shape::Dots(_));
+                if (*shape != Shape::Rooted && starts_rooting_expr(&strip_flags(&expr))) || has_sep_class(&expr) || crate::props::c12::has_dot_component(if dotted { g } else { &expr }).0 {
                     return Ok(());
                 }
                 let text = render_text(&expr);
@@ -303,7 +306,11 @@ impl Property for C15 {
                 }
             },
         };
-        if prefix.split('/').any(|c| c == "." || c == "..") {
+        let dotted = matches!(&case.glob, Some((Shape::Dots(_), _)));
+        if dotted && prefix.split('/').any(|c| c == "..") {
+            st.count("dotdot_prefix_walks");
+        }
+        if prefix.split('/').any(|c| c == "." || (c == ".." && !dotted)) {
             // dot components in the prefix (also through `[.]`) are C02's business
             st.count("skipped_dot_prefix");
             return Ok(());
